@@ -2,9 +2,12 @@
 //! The Python driver (/verif/verif) builds this binary against the working tree under test,
 //! shards work units over worker processes, watches them, minimises and reports.
 
+mod alloc_count;
 mod c03;
 mod c09;
 mod c11;
+mod c17;
+mod capi;
 mod cli;
 mod corpus;
 mod engine;
@@ -24,6 +27,8 @@ fn engine_for(prop: &str, ctx: Ctx) -> Box<dyn Engine> {
         "C03" => Box::new(c03::C03 { ctx }),
         "C09" => Box::new(c09::C09 { ctx }),
         "C11" => Box::new(c11::C11 { ctx }),
+        "C17" => Box::new(c17::CApi { ctx, mode: capi::Mode::Model }),
+        "C18" => Box::new(c17::CApi { ctx, mode: capi::Mode::Memory }),
         other => {
             eprintln!("haysim: unknown property {other}");
             std::process::exit(2);
@@ -37,6 +42,8 @@ fn run_explicit(case: &Case, ctx: &Ctx) -> Outcome {
         "C03" => c03::run_case(case),
         "C09" => c09::run_case(case, c09::load_namespace(ctx)),
         "C11" => c11::run_case(case),
+        "C17" => c17::run_case(case, capi::Mode::Model),
+        "C18" => c17::run_case(case, capi::Mode::Memory),
         other => {
             eprintln!("haysim: unknown property {other}");
             std::process::exit(2);
